@@ -86,6 +86,8 @@ inductive CStep
   | ev (e : Event)                 -- await self._event_handler(e)
   | setConnected                   -- self._is_connected = True
   | raise_                         -- an await inside `_connect` raises
+  | openProtocol                   -- self._protocol = <the new datagram endpoint>
+  | useProtocol                    -- await self._protocol.get(..) / await self.struct.get(self._protocol, ..): AttributeError once disconnected
 deriving DecidableEq, Repr
 
 structure Table where
